@@ -309,7 +309,12 @@ func FieldByType(n *types.Named, typ string) *types.Var {
 }
 
 func typeStr(t types.Type) string {
-	return types.TypeString(t, func(*types.Package) string { return "" })
+	return types.TypeString(t, func(p *types.Package) string {
+		if strings.HasPrefix(p.Path(), modPath) {
+			return ""
+		}
+		return p.Name()
+	})
 }
 
 // namedOf strips pointers and returns the named type, or nil.
